@@ -19,7 +19,7 @@ EXPLANATION = (
     "format chosen per width by partial evaluation of the constructor's threshold chain, size = width//8, the "
     "truncating slice in pack dominated by a raising range guard whose bounds fold to the type's exact range for "
     "every width, unpack pads by exactly (wide size - size) bytes with 0xFF iff the sign bit of the top byte is set; "
-    "R4 struct errors in encode_raw/decode_raw are never swallowed; R5 __len__ = codec size * 8; R6 text codecs; R9 no method of ODVariable caches (cached_property, lru_cache) a result derived from the re-assignable attributes data_type/factor/min/max/descriptions: the codec follows the current data type; R8 structural assumptions shared by all properties: no class-level mutable object is mutated in place by instances, no method re-runs the constructor, logging statements cannot raise (typed eager formatting, divisions), no mutable default argument is kept or mutated, no new truth-value test of a None-able number."
+    "R4 struct errors in encode_raw/decode_raw are never swallowed; R5 __len__ = codec size * 8; R6 text codecs; R9 no method of ODVariable caches (cached_property, lru_cache) a result derived from the re-assignable attributes data_type/factor/min/max/descriptions: the codec follows the current data type; R8 structural assumptions shared by all properties: no class-level mutable object is mutated in place by instances, no method re-runs the constructor, logging statements cannot raise (typed eager formatting, divisions), no mutable default argument is kept or mutated, no new truth-value test of a None-able number, a look-up memory the pinned tree does not have is keyed by all its inputs (arithmetic keys folded over a grid of addresses) and, on the serving side, emptied somewhere."
     " R4 also: a range pre-check in encode_raw is evaluated at both ends of every integer type's range (a legal end that reaches the raise is a violation)."
 )
 ASSUMPTIONS = [
